@@ -4,7 +4,7 @@ Lemmas about the finite-map user dictionary and the layer merge of `Layered::loo
 the two quantities `learn_phrase` reads off the merged list — the frequency of the phrase and the highest
 frequency — are order-free functions of the multiset of layer entries (`bestOf`, `maxOf`).
 -/
-namespace Chewing
+namespace Chewing.Learn
 open Gen.Learn
 
 /-! ### `maxOf` -/
@@ -309,4 +309,4 @@ theorem phraseFreq_eq_bestOf (es : List (Text × Nat)) (t : Text) (h : Uniq es) 
       simp only [phraseFreq, List.find?, h1, decide_false, if_false] at this ⊢
       exact this
 
-end Chewing
+end Chewing.Learn
